@@ -378,18 +378,24 @@ func ruleLivenessFailSafe(c *Ctx, rule string) {
 	if fn != nil {
 		// param 2 is err; on err != nil, return false only through IsNotFound
 		errNN := guardEdges(fn, predNeq(func(v ssa.Value) bool { return sameParam(v, pAt(fn, 2)) }, isNilConst))
-		if len(errNN) != 1 {
-			c.undecided(rule, fn, "err != nil test", nil, "expected one test of the err parameter against nil")
+		if len(errNN) == 0 {
+			c.undecided(rule, fn, "err != nil test", nil, "expected a test of the err parameter against nil")
 		} else {
 			notFound := guardEdges(fn, predCall("errors.IsNotFound", nil))
-			r := reachFromEdge(errNN[0], newCut().edge(notFound...))
+			// the parameter does not change: coming from an err != nil edge, the err == nil side of another test of it is infeasible
+			var errNil []edge
+			for _, e := range errNN {
+				errNil = append(errNil, edge{e.from, 1 - e.succ})
+			}
 			bad := false
 			n := 0
 			for _, ret := range returns(fn) {
 				if b, ok := constBoolVal(retVal(ret, 0)); ok && !b {
 					n++
-					if r.has(ret) {
-						bad = true
+					for _, e := range errNN {
+						if reachFromEdge(e, newCut().edge(notFound...).edge(errNil...)).has(ret) {
+							bad = true
+						}
 					}
 				}
 			}
@@ -404,7 +410,7 @@ func ruleLivenessFailSafe(c *Ctx, rule string) {
 			})
 		}))
 		errEdges := errNN
-		r := reachFromEntry(fn, newCut().edge(fin...).edge(uidMis...).edge(errEdges...))
+		r := reachFromEntry(fn, newCut().edge(fin...).edge(uidMis...).edge(errEdges...).edge(guardEdges(fn, predCall("errors.IsNotFound", nil))...))
 		bad := false
 		for _, ret := range returns(fn) {
 			if b, ok := constBoolVal(retVal(ret, 0)); ok && !b && r.has(ret) {
